@@ -1,6 +1,8 @@
 import KernDriver.Json
 import KernDriver.C11
 import KernDriver.Pitch
+import KernDriver.Tokens
+import KernDriver.C18
 namespace KD
 open Lean
 
@@ -8,6 +10,8 @@ def dispatch (j : Json) : Except String Json := do
   let op ← (← j.getObjVal? "op").getStr?
   if op.startsWith "c11." then KD.C11.handle op j
   else if op.startsWith "pitch." || op.startsWith "c16." || op.startsWith "c09." then KD.PitchOps.handle op j
+  else if op.startsWith "c18." then KD.C18.handle op j
+  else if op.startsWith "c10." then KD.GkernOps.handle op j
   else throw s!"unknown op {op}"
 
 partial def loop (h : IO.FS.Stream) (out : IO.FS.Stream) : IO Unit := do
